@@ -42,7 +42,9 @@ def _child():
         before = set(threading.enumerate())
         run, tasks, hgraph, sgraph, env = sc.prepare(case, envmod)
         box = {}
-        body = sc.make_body(case, envmod, qmod, hgraph, sgraph, env, box)
+        import valjean.cosette.scheduler as smod
+        sc.install_nested(case, tasks, envmod, smod)
+        body = sc.make_body(case, envmod, qmod, hgraph, sgraph, env, box, smod=smod)
         try:
             body()
             how, value = 'returned', ''
